@@ -243,7 +243,8 @@ class Graph:
                         src.relabel = lambda subst, p=p, sp=sp: self.label(p, sp, subst=subst)
                     src.discharged = guarded_arith(self.facts, p, sp, kind) or enumerate_index(self.facts, p, sp, kind) or \
                         bounded_operands(self.facts, p, sp, kind) or bounded_index(self.facts, p, sp, kind) or \
-                        (consumed_prefix(self.facts, p, sp, 'sub') if kind == 'Overflow(Sub)' else None)
+                        (consumed_prefix(self.facts, p, sp, 'sub') if kind == 'Overflow(Sub)' else None) or \
+                        (guarded_range_index(self.facts, p, sp) if kind.split('(')[0] == 'BoundsCheck' else None)
                     out.append(src)
                 elif t['k'] in ('Call', 'TailCall'):
                     c = t.get('inst') or t.get('callee')
@@ -275,7 +276,8 @@ class Graph:
                         src.discharged = lock_poison(t) or (consumed_prefix(self.facts, p, t.get('fn_sp') or sp, 'advance') if (c or '').endswith('>::advance') else None) \
                             or (bounded_amount(self.facts, p, t.get('fn_sp') or sp) if (c or '').rsplit('::', 1)[-1] in ('reserve', 'with_capacity', 'resize', 'reserve_exact') else None) \
                             or (guarded_split(self.facts, p, t.get('fn_sp') or sp) if (c or '').rsplit('::', 1)[-1] in ('split_at', 'split_at_mut') else None) \
-                            or (guarded_index(self.facts, p, t.get('fn_sp') or sp) if (c or '').endswith('core::ops::index::Index<I>>::index') else None)
+                            or (guarded_index(self.facts, p, t.get('fn_sp') or sp) if (c or '').endswith('core::ops::index::Index<I>>::index') else None) \
+                            or (guarded_range_index(self.facts, p, t.get('fn_sp') or sp) if t.get('callee') == 'core::ops::index::Index::index' and 'Range' in str(t.get('targs') or '') else None)
                         out.append(src)
         res = []
         for src in out:
@@ -628,6 +630,21 @@ def upper_bound(facts, B, e, depth=0):
         return cap
     k = e['k']
     sub = lambda x: upper_bound(facts, B, x, depth + 1)
+    # the payload of `c.to_digit(r)` with a constant radix r - reached through `?`, ok_or(..), ok_or_else(..), unwrap(), expect(..),
+    # which hand the Some / Ok payload on unchanged - is a digit of that radix: std answers Some(d) only with d < r
+    src = e
+    while True:
+        if src['k'] == 'Try':
+            src = _hirq.peel_refs(src['e'])
+        elif src['k'] == 'MethodCall' and src.get('name') in ('ok_or', 'ok_or_else', 'unwrap', 'expect') \
+                and (src.get('callee') or '').startswith(('core::option::Option::<T>::', 'core::result::Result::<T, E>::')):
+            src = _hirq.peel_refs(src['recv'])
+        else:
+            break
+    if src is not e and src['k'] == 'MethodCall' and (src.get('callee') or '') == 'core::char::methods::<impl char>::to_digit' and len(src['args']) == 1:
+        r_ = _hirq.const_eval(facts, src['args'][0])
+        if isinstance(r_, int) and not isinstance(r_, bool) and 2 <= r_ <= 36:
+            return min(cap, r_ - 1)
     if k == 'Cast':
         inner = sub(e['e'])          # None for a signed source: a negative value would become a large one
         return cap if inner is None else min(cap, inner)
@@ -646,29 +663,32 @@ def upper_bound(facts, B, e, depth=0):
         if op == 'Add':
             l, r2 = sub(e['l']), sub(e['r'])
             return cap if l is None or r2 is None else min(cap, l + r2)
+        if op == 'Mul':
+            l, r2 = sub(e['l']), sub(e['r'])
+            return cap if l is None or r2 is None else min(cap, l * r2)
     if k == 'MethodCall' and e.get('name') == 'len' and not e['args'] and _BYTE_SEQ.match(_hirq.strip_refs(e['recv'].get('ty') or '')):
         return min(cap, ISIZE_MAX)
     return cap
 
 def bounded_operands(facts, body_path, src_sp, kind):
-    """D7: an Overflow(Add) assert on an unsigned `a + b` is discharged when the operands are bounded by construction (see
-    upper_bound) and the bounds add up to at most the type's maximum: `2 + (x & 127) as usize`, `2 + slice.len()`,
+    """D7: an Overflow(Add) / Overflow(Mul) assert on an unsigned `a + b` / `a * b` is discharged when the operands are bounded by
+    construction (see upper_bound) and the sum / product of the bounds is at most the type's maximum: `2 + (x & 127) as usize`, `2 + slice.len()`,
     `hdr as usize + n as usize` with u8 / u16 sources.  Nothing is read off a guard here - an operand that is merely *tested* to
     be small is D2's business - so there is no guard whose removal could go unnoticed."""
     rec = hir_owner(facts, body_path)
-    if rec is None or kind != 'Overflow(Add)':
+    if rec is None or kind not in ('Overflow(Add)', 'Overflow(Mul)'):
         return None
     B = _hirq.Body(facts, rec)
     cands = [n for n in B.nodes if n['k'] == 'Binary' and n.get('sp') and list(n['sp'][:5]) == list(src_sp[:5])]
-    if len(cands) != 1 or cands[0]['op'] != 'Add':
+    if len(cands) != 1 or cands[0]['op'] != kind[len('Overflow('):-1]:
         return None
     n = cands[0]
     ty = _hirq.strip_refs(n.get('ty') or '')
     if ty not in UNSIGNED:
         return None
     l, r = upper_bound(facts, B, n['l']), upper_bound(facts, B, n['r'])
-    if l is not None and r is not None and l + r <= INT_MAX[ty]:
-        return 'operands bounded by construction: at most %d + %d, within %s' % (l, r, ty)
+    if l is not None and r is not None and (l + r if n['op'] == 'Add' else l * r) <= INT_MAX[ty]:
+        return 'operands bounded by construction: at most %d %s %d, within %s' % (l, '+' if n['op'] == 'Add' else '*', r, ty)
     return None
 
 def bounded_index(facts, body_path, src_sp, kind):
@@ -1019,3 +1039,93 @@ def guarded_split(facts, body_path, sp):
         if e['k'] == 'MethodCall' and e['name'] in ('iter', 'into_iter') and not e['args'] and expr_eq(facts, e['recv'], x):
             return 'the split position counts elements of the split slice itself (iter() through adaptors that never lengthen the sequence): it is <= len'
     return None
+
+
+def guarded_range_index(facts, body_path, sp):
+    """D9: `x[a..]`, `x[..b]`, `x[a..b]` with literal bounds on a slice panics exactly when a bound exceeds x.len() (or a > b), `x[k]`
+    with a literal k exactly when k >= x.len().  Discharged when, on every path of the enclosing closure / function body that the abstract interpreter enumerates up to the
+    indexing, the path condition at that point gives len(x) >= the largest bound - for the very slice value x that is indexed
+    (same term; a slice behind a shared reference does not change):
+      * `x.get(r)` was found to be Some for a range r with a literal bound >= it (std: get(range) answers Some exactly when the
+        range lies within the slice, so `a <= b <= len`), or `x.get(k)` Some for an index k >= bound - 1 (Some exactly when k < len);
+      * x itself is the sub-slice a `get(a..b)` / `get(..b)` answered: it has exactly b - a elements;
+      * comparisons of x.len() with literals (absx.length_facts).
+    However the guard is spelled (`get(..2).ok_or(e)?`, `let Some(h) = x.get(..2) else { return }`, a `match`, `if x.len() < 2 {
+    return }`), it ends up as one of these facts on the paths that go on.  A path the interpreter cannot enumerate, an index
+    that is never reached, a bound that is not a literal: not discharged."""
+    import absx
+    rec = hir_owner(facts, body_path)
+    if rec is None:
+        return None
+    B = _hirq.Body(facts, rec)
+    cands = [n for n in B.nodes if n['k'] == 'Index' and n.get('sp') and
+             (list(n['sp'][:5]) == list(sp[:5]) or (n['sp'][0] == sp[0] and n['sp'][3:5] == sp[3:5]))]
+    if len(cands) != 1:
+        return None
+    ix = cands[0]
+    idx = _hirq.peel_refs(ix['idx'])
+    k0 = _hirq.const_eval(facts, idx)
+    if isinstance(k0, int) and not isinstance(k0, bool) and k0 >= 0:
+        need = k0 + 1             # `x[k]` panics exactly when k >= x.len()
+    elif idx['k'] != 'Struct' or (idx.get('def') or '').rsplit('::', 1)[-1] not in ('Range', 'RangeFrom', 'RangeTo', 'RangeFull'):
+        return None
+    else:
+        bounds = {}
+        for fl in idx['fields']:
+            v = _hirq.const_eval(facts, fl['e'])
+            if not isinstance(v, int) or isinstance(v, bool) or v < 0:
+                return None
+            bounds[fl['name']] = v
+        if 'start' in bounds and 'end' in bounds and bounds['start'] > bounds['end']:
+            return None
+        need = max(list(bounds.values()) + [0])
+        if need == 0:
+            return '`x[..]` / `x[0..]` / `x[..0]`: within every slice'
+    if not any(n.get('k') == 'MethodCall' and n.get('name') in ('get', 'len', 'is_empty') for n in B.nodes):
+        return None               # (no length test of any kind in the body: nothing to read, the interpretation is not even tried)
+    seen = []
+    class Probe(absx.Interp):
+        def ev_Index(self, e, st):
+            if e is ix:
+                res, _abn = self.seq([e['e']], st)
+                for (a,), s_ in res:
+                    seen.append((a, s_.pc))
+            return absx.Interp.ev_Index(self, e, st)
+    encl = [a for a, _r in B.context(ix) if a['k'] == 'Closure']
+    I = Probe(facts, B, combinators=True)
+    try:
+        if encl:
+            cl = encl[-1]
+            I.apply_closure(('closure', cl['def']), [('param', 'arg#%d' % i) for i in range(len(cl['params']))], absx.St({}), cl)
+        else:
+            I.run()
+    except absx.TooManyPaths:
+        return None
+    if not seen:
+        return None
+    def lit_int(t):
+        return t is not None and t[0] == 'lit' and isinstance(t[1], int) and not isinstance(t[1], bool)
+    def have(x, pc):
+        fl = absx.length_facts(pc, x)
+        h = fl[0] if fl is not None else 0
+        if x[0] == 'variant' and x[2] == 'Some' and x[3] == 0 and x[1][0] == 'call' and x[1][1] == 'core::slice::<impl [T]>::get' and len(x[1][2]) == 2:
+            # x is the sub-slice `y.get(a..b)` / `y.get(..b)` answered: it has exactly b - a elements
+            rv = absx.range_value(x[1][2][1])
+            if rv is not None and rv[0] in ('Range', 'RangeTo') and lit_int(rv[2]) and (rv[1] is None or lit_int(rv[1])):
+                h = max(h, rv[2][1] - (rv[1][1] if rv[1] is not None else 0))
+        for a, t in pc:
+            if not (t and a[0] == 'is' and a[2] == 'Some' and a[1][0] == 'call' and a[1][1] == 'core::slice::<impl [T]>::get' and len(a[1][2]) == 2 and a[1][2][0] == x):
+                continue
+            k = a[1][2][1]
+            rv = absx.range_value(k)
+            if rv is not None and rv[0] in ('Range', 'RangeFrom', 'RangeTo'):
+                for bnd in rv[1:]:
+                    if bnd is not None and bnd[0] == 'lit' and isinstance(bnd[1], int) and not isinstance(bnd[1], bool):
+                        h = max(h, bnd[1])
+            elif k[0] == 'lit' and isinstance(k[1], int) and not isinstance(k[1], bool):
+                h = max(h, k[1] + 1)
+        return h
+    for x, pc in seen:
+        if absx.leaves(x, lambda z: z[0] in ('unk', 'unbound')) or have(x, pc) < need:
+            return None
+    return 'guarded: on each of the %d enumerated paths to the indexing the path condition gives len >= %d (a `get` of the same slice that was Some / a length comparison)' % (len(seen), need)
